@@ -44,7 +44,7 @@ pub fn judge_line(l: &mut Local, line: &[u8], decode: bool, prop: &'static str) 
     if out.is_ok() {
         l.nontrivial();
     }
-    if matches!(exp, Expect::Unjudged(_)) {
+    if matches!(exp, Expect::Unjudged(_) | Expect::EmbeddedStar { .. }) {
         l.unjudged();
     }
     FINDINGS.with(|f| {
